@@ -189,7 +189,7 @@ def track_trace(args):
     return '(' + ' '.join(steps) + ')'
 
 
-def deser(args, expand=False):
+def deser(args, expand=False, typed=True):
     """deserialise three byte strings into a fresh PrettyPrintingInterpreter, phase by phase"""
     import io as _io
     from proof_generation.deserialize import deserialize_instructions
@@ -251,7 +251,8 @@ def deser(args, expand=False):
             if not (isinstance(left, Proved) and isinstance(right, Proved)):
                 raise TypeError('ill-typed mp')
             return super().modus_ponens(left, right)
-    it = Typed(ExecutionPhase.Gamma, TSink(), claims, TSink(), TSink())
+    # typed=False: the interpreter as shipped, without the static-typing wrapper of this harness (used to re-examine a raise)
+    it = (Typed if typed else PrettyPrintingInterpreter)(ExecutionPhase.Gamma, TSink(), claims, TSink(), TSink())
     for ph, data in zip(('gamma', 'claim', 'proof'), bs):
         try:
             deserialize_instructions(data, it)
